@@ -214,7 +214,12 @@ Definition step : P (option event) :=
   | None => pret None
   | Some ps =>
     e <~ (match ps with
-    | PStreamStart => t <~ get_tok ;; set_ps (Some PImplicitDocStart) ;;~ pret (mk VStreamStart (t_start t) (t_end t))
+    | PStreamStart =>
+        t <~ get_tok ;;
+        match t_kind t with
+        | TStreamStart => set_ps (Some PImplicitDocStart) ;;~ pret (mk VStreamStart (t_start t) (t_end t))
+        | _ => pcrash                     (* token.encoding: AttributeError on any other token class *)
+        end
     | PImplicitDocStart =>
         b <~ check (fun k => is_directive k || any_of [TDocStart; TStreamEnd] k) ;;
         if negb b then
